@@ -308,6 +308,10 @@ func (c *C) attemptConnect(ctx context.Context, lmtp bool, endp config.Endpoint,
 func (c *C) Mail(ctx context.Context, from string, opts smtp.MailOptions) error {
 	defer trace.StartRegion(ctx, "smtpconn/MAIL FROM").End()
 
+	// New transaction, recipients of the previous one (if the connection is
+	// reused) are no longer relevant.
+	c.rcpts = nil
+
 	outOpts := smtp.MailOptions{
 		// Future extensions may add additional fields that should not be
 		// copied blindly. So we copy only fields we know should be handled
@@ -376,6 +380,10 @@ func (c *C) Rcpt(ctx context.Context, to string, opts smtp.RcptOptions) error {
 		// TODO: DSN support
 	}
 
+	// Rcpts reports the address as it was given by the caller, not the
+	// form converted for the server.
+	originalTo := to
+
 	// If necessary, the extension flag is enabled in Start.
 	if ok, _ := c.cl.Extension("SMTPUTF8"); !address.IsASCII(to) && !ok {
 		var err error
@@ -397,7 +405,7 @@ func (c *C) Rcpt(ctx context.Context, to string, opts smtp.RcptOptions) error {
 		return c.wrapClientErr(err, c.serverName)
 	}
 
-	c.rcpts = append(c.rcpts, to)
+	c.rcpts = append(c.rcpts, originalTo)
 
 	return nil
 }
